@@ -6,7 +6,7 @@ package props
 // exported $k / $NAME, and the record -> reload round trip that retry and
 // restart use;  (2) real `blackdagger` binary with probe child processes as
 // steps and handlers: start -p, retry --req, restart;  (3) output capture:
-// a producer child prints known bytes, consumers (next step, a later step,
+// a producer child prints known bytes, the producer also redirects stdout (and stderr) to files in a third of the cases; consumers (next step, a later step,
 // handlers, a retry) dump the variable they see.
 
 import (
@@ -688,6 +688,6 @@ func init() {
 				{Name: "recorded", Mode: "recorded", Shards: 12, Timeout: 60 * time.Minute},
 			}
 		},
-		Rule:        "Parameter strings are BUILT from the documented syntax (1-4 tokens: bare word, \"quoted value\" with \\\" escapes, NAME=value, NAME=\"quoted value\"; values from a pool with spaces, leading/trailing blanks, quotes inside and at the edges, '=', backslashes, unicode, empty, glob and shell characters, 2 kB), so the expected values are known by construction. strings pass: 24000 (400000) strings through dag.Load as start parameters or as the definition's defaults: DAG.Params, the exported $1..$n and $NAME, and the round trip retry/restart perform (reload with model.Params(recorded)). process pass: 96 (1500) cases with the real blackdagger binary: steps and handlers are probe child processes that dump the environment they see; start -p (as client.Start hands parameters over) or defaults, then a second run with other parameters and retry --req of the FIRST run, then restart; every probe must see exactly the given values. outputs pass: 88 (1200) cases: a producer child prints known bytes (sizes 0, 1, 2, 100, 4095-4097, 65535-65537, 100000; whitespace around/inside; quotes, = $ \\, unicode, shell characters; optionally also stderr), consumers (next step, a later step, onFailure/onSuccess/onExit handlers, the re-executed step of a retry, and of a retry of that retry's record) dump $CAPTURED which must equal the trimmed stdout; the producing run must end within 60 s; for plain values the consumers also take $CAPTURED as a command ARGUMENT, in half the cases with the same name given a default in the DAG's env: section. recorded pass: 700 (12000) in-process agent runs (scripted executor) of 2-10 parallel producers that capture distinct known values (1 B - 90 kB) and finish together, and a dependent step that fails: every value must be seen by the dependent step, be in the final record read back through a fresh jsondb store, and be seen by the step a retry (RetryTarget, environment cleared first as in a new process) re-executes. Non-trivial/distinct = distinct strings / cases.",
+		Rule:        "Parameter strings are BUILT from the documented syntax (1-4 tokens: bare word, \"quoted value\" with \\\" escapes, NAME=value, NAME=\"quoted value\"; values from a pool with spaces, leading/trailing blanks, quotes inside and at the edges, '=', backslashes, unicode, empty, glob and shell characters, 2 kB), so the expected values are known by construction. strings pass: 24000 (400000) strings through dag.Load as start parameters or as the definition's defaults: DAG.Params, the exported $1..$n and $NAME, and the round trip retry/restart perform (reload with model.Params(recorded)). process pass: 96 (1500) cases with the real blackdagger binary: steps and handlers are probe child processes that dump the environment they see; start -p (as client.Start hands parameters over) or defaults, then a second run with other parameters and retry --req of the FIRST run, then restart; every probe must see exactly the given values; the definition has an env: section whose value is edited between the first run and its retry in half of the cases: the re-executed step must see the value the recorded run had. outputs pass: 88 (1200) cases: a producer child prints known bytes (sizes 0, 1, 2, 100, 4095-4097, 65535-65537, 100000; whitespace around/inside; quotes, = $ \\, unicode, shell characters; optionally also stderr), consumers (next step, a later step, onFailure/onSuccess/onExit handlers, the re-executed step of a retry, and of a retry of that retry's record) dump $CAPTURED which must equal the trimmed stdout; the producing run must end within 60 s; for plain values the consumers also take $CAPTURED as a command ARGUMENT, in half the cases with the same name given a default in the DAG's env: section. recorded pass: 700 (12000) in-process agent runs (scripted executor) of 2-10 parallel producers that capture distinct known values (1 B - 90 kB) and finish together, and a dependent step that fails: every value must be seen by the dependent step, be in the final record read back through a fresh jsondb store, and be seen by the step a retry (RetryTarget, environment cleared first as in a new process) re-executes. Non-trivial/distinct = distinct strings / cases.",
 		Assumptions: []string{"'$' and backticks are not generated inside parameter values (environment and command substitution are documented features of start parameters)", "newlines inside a parameter are not generated; captured outputs stay below the kernel's 128 KiB per-string exec limit"}})
 }
